@@ -2296,6 +2296,300 @@ func (h *harness) unknownNullSweep(s *gq.SchemaDesc) {
 	}
 }
 
+// ---------------------------------------------------------------- histories
+
+// judge: the outcome of one request against the model's verdict for the schema version in force
+func (h *harness) judge(c execCase, rec *recorded, res *graphql.Result, m execResp, fail func(string)) bool {
+	if !m.Vars.Ok || !m.LitsValid || !m.DefaultsValid {
+		if res == nil || res.Data != nil || len(res.Errors) < 1 || rec.calls != 0 {
+			fail("the model refuses the request (uncoercible variable, or invalid literal / default for the type as it is NOW): expected an error, no data and no resolver call")
+			return false
+		}
+		return true
+	}
+	return checkInvocations(c, rec, m, true, fail)
+}
+
+// plainLit writes a wire value as literal text without consulting a type (ints, strings, lists, objects; nulls omitted)
+func plainLit(v interface{}) string {
+	switch x := v.(type) {
+	case int:
+		return strconv.Itoa(x)
+	case string:
+		return quote(x)
+	case bool:
+		return strconv.FormatBool(x)
+	case []interface{}:
+		var parts []string
+		for _, e := range x {
+			parts = append(parts, plainLit(e))
+		}
+		return "[" + strings.Join(parts, ", ") + "]"
+	case map[string]interface{}:
+		keys := make([]string, 0, len(x))
+		for k := range x {
+			keys = append(keys, k)
+		}
+		sort.Strings(keys)
+		var parts []string
+		for _, k := range keys {
+			if x[k] != nil {
+				parts = append(parts, k+": "+plainLit(x[k]))
+			}
+		}
+		return "{" + strings.Join(parts, ", ") + "}"
+	}
+	return "null"
+}
+
+// historyAddField: request → InputObject.AddFieldConfig (a required field / an optional field with a default / a field
+// replacing an existing one) → the same and further requests again. Each request is judged by the model on the type as
+// it is at that moment (variable, inline-literal and variable-default forms; the type bare, in a list, nested).
+func (h *harness) historyAddField() {
+	run := h.run
+	type kindT struct {
+		name  string
+		apply func(inp *graphql.InputObject)
+		desc  func(fs []gq.ArgDesc) []gq.ArgDesc
+	}
+	kinds := []kindT{
+		{"required-field", func(inp *graphql.InputObject) {
+			inp.AddFieldConfig("n", &graphql.InputObjectFieldConfig{Type: graphql.NewNonNull(graphql.Int)})
+		}, func(fs []gq.ArgDesc) []gq.ArgDesc { return append(fs, gq.ArgDesc{Name: "n", Type: "Int!"}) }},
+		{"optional-field-with-default", func(inp *graphql.InputObject) {
+			inp.AddFieldConfig("d", &graphql.InputObjectFieldConfig{Type: graphql.Int, DefaultValue: 7})
+		}, func(fs []gq.ArgDesc) []gq.ArgDesc {
+			return append(fs, gq.ArgDesc{Name: "d", Type: "Int", HasDef: true, Default: 7})
+		}},
+		{"field-replacing-an-existing-one", func(inp *graphql.InputObject) {
+			inp.AddFieldConfig("a", &graphql.InputObjectFieldConfig{Type: graphql.NewNonNull(graphql.String)})
+		}, func(fs []gq.ArgDesc) []gq.ArgDesc {
+			out := []gq.ArgDesc{}
+			for _, f := range fs {
+				if f.Name == "a" {
+					f = gq.ArgDesc{Name: "a", Type: "String!"}
+				}
+				out = append(out, f)
+			}
+			return out
+		}},
+	}
+	hv := []map[string]interface{}{{"a": 1}, {"a": 1, "n": 5}, {"a": 1, "n": "abc"}, {"a": "x"}, {"a": "x", "n": 1}, {"a": 1, "d": 3},
+		{"a": 1, "b": nil}, {}, {"n": 2}, {"a": 1, "d": "q"}}
+	positions := []struct {
+		typ  string
+		wrap func(v interface{}) interface{}
+	}{
+		{"HIn", func(v interface{}) interface{} { return v }},
+		{"[HIn]", func(v interface{}) interface{} { return []interface{}{map[string]interface{}{"a": 2}, v} }},
+		{"HOut!", func(v interface{}) interface{} { return map[string]interface{}{"in": v, "k": 1} }},
+	}
+	for _, kd := range kinds {
+		for _, pos := range positions {
+			inp := graphql.NewInputObject(graphql.InputObjectConfig{Name: "HIn", Fields: graphql.InputObjectConfigFieldMap{
+				"a": &graphql.InputObjectFieldConfig{Type: graphql.Int},
+				"b": &graphql.InputObjectFieldConfig{Type: graphql.String, DefaultValue: "dflt"}}})
+			out := graphql.NewInputObject(graphql.InputObjectConfig{Name: "HOut", Fields: graphql.InputObjectConfigFieldMap{
+				"in": &graphql.InputObjectFieldConfig{Type: graphql.NewNonNull(inp)},
+				"k":  &graphql.InputObjectFieldConfig{Type: graphql.Int}}})
+			var argType graphql.Input = inp
+			switch pos.typ {
+			case "[HIn]":
+				argType = graphql.NewList(inp)
+			case "HOut!":
+				argType = graphql.NewNonNull(out)
+			}
+			rec := &recorded{}
+			q := graphql.NewObject(graphql.ObjectConfig{Name: "Q", Fields: graphql.Fields{"cf": &graphql.Field{Type: graphql.String,
+				Args: graphql.FieldConfigArgument{"a": &graphql.ArgumentConfig{Type: argType}},
+				Resolve: func(p graphql.ResolveParams) (interface{}, error) {
+					rec.calls++
+					snap := toWireG(map[string]interface{}(p.Args))
+					rec.all = append(rec.all, snap)
+					if rec.calls == 1 {
+						rec.args, rec.vars = snap, toWireG(p.Info.VariableValues)
+					}
+					mutateInPlace(map[string]interface{}(p.Args))
+					return "x", nil
+				}}}})
+			schema, err := graphql.NewSchema(graphql.SchemaConfig{Query: q, Types: []graphql.Type{inp, out}})
+			if err != nil {
+				run.CheckError("history schema does not build: " + err.Error())
+				return
+			}
+			fields := []gq.ArgDesc{{Name: "a", Type: "Int"}, {Name: "b", Type: "String", HasDef: true, Default: "dflt"}}
+			mkDesc := func(fs []gq.ArgDesc) *gq.SchemaDesc {
+				return &gq.SchemaDesc{Query: "Q", Types: []gq.TypeDesc{
+					{Kind: "INPUT_OBJECT", Name: "HIn", InputFields: fs},
+					{Kind: "INPUT_OBJECT", Name: "HOut", InputFields: []gq.ArgDesc{{Name: "in", Type: "HIn!"}, {Name: "k", Type: "Int"}}},
+					{Kind: "OBJECT", Name: "Q", Fields: []gq.FieldDesc{{Name: "cf", Type: "String", Args: []gq.ArgDesc{{Name: "a", Type: pos.typ}}}}}}}
+			}
+			phase := func(label string, desc *gq.SchemaDesc) bool {
+				for _, v := range hv {
+					val := pos.wrap(v)
+					reqs := []struct {
+						form, query string
+						inputs      map[string]interface{}
+					}{
+						{"variable", "query($v: " + pos.typ + ") { cf(a: $v) }", map[string]interface{}{"v": val}},
+						{"literal", "{ cf(a: " + plainLit(val) + ") }", map[string]interface{}{}},
+					}
+					if !strings.HasSuffix(pos.typ, "!") {
+						reqs = append(reqs, struct {
+							form, query string
+							inputs      map[string]interface{}
+						}{"variable-default", "query($v: " + pos.typ + " = " + plainLit(val) + ") { cf(a: $v) }", map[string]interface{}{}})
+					}
+					for _, rq := range reqs {
+						doc, err := parser.Parse(parser.ParseParams{Source: rq.query})
+						if err != nil {
+							run.CheckError("history query does not parse: " + rq.query)
+							return false
+						}
+						c := execCase{Kind: "exec", Schema: desc, Query: rq.query, Inputs: rq.inputs, NumMode: "int"}
+						*rec = recorded{}
+						var res *graphql.Result
+						pan := guard(func() {
+							res = graphql.Do(graphql.Params{Schema: schema, RequestString: rq.query, VariableValues: goInputs(desc, doc, rq.inputs, "int")})
+						})
+						m, raw, ok := h.askExec(c, doc, rq.inputs)
+						if !ok {
+							return false
+						}
+						real := map[string]interface{}{"history": label, "kind": kd.name, "calls": rec.calls, "invocations": rec.all, "panic": pan}
+						if res != nil {
+							real["dataIsNil"], real["errors"] = res.Data == nil, len(res.Errors)
+						}
+						run.Tag("history:add-field:" + kd.name + ":" + label)
+						run.Tag("history:form=" + rq.form)
+						run.Case("hist1|"+kd.name+"|"+pos.typ+"|"+label+"|"+rq.query+"|"+hx.Canon(rq.inputs), true, nil)
+						fail := func(note string) {
+							run.Violation("history (request, InputObject.AddFieldConfig: "+kd.name+", request), "+label+": "+note,
+								map[string]interface{}{"case": c, "real": real, "model": raw, "note": "history case: not replayable from the case alone"}, false)
+						}
+						if pan != nil {
+							fail("graphql.Do panicked")
+							return false
+						}
+						if !h.judge(c, rec, res, m, fail) {
+							return false
+						}
+					}
+				}
+				return true
+			}
+			if !phase("before the mutation", mkDesc(fields)) {
+				return
+			}
+			kd.apply(inp)
+			if !phase("after the mutation", mkDesc(kd.desc(fields))) {
+				return
+			}
+		}
+	}
+}
+
+// historyHeldPlan: a plan is made against schema V1 and then executed with ExecuteParams.Schema = V1, = a rebuilt schema V2
+// of the same shape (other enum internal values, an extra enum value, another input-field default), and = none. The
+// plan's schema governs everything: variables are coerced, literals were pre-coerced and resolvers are taken from V1.
+func (h *harness) historyHeldPlan() {
+	run := h.run
+	mk := func(v2 bool) *gq.SchemaDesc {
+		vals := []gq.EnumValDesc{{Name: "RED", Internal: 1}, {Name: "GREEN", Internal: 2}}
+		dflt := 7
+		if v2 {
+			vals = []gq.EnumValDesc{{Name: "RED", Internal: 11}, {Name: "GREEN", Internal: 12}, {Name: "BLUE", Internal: 23}}
+			dflt = 70
+		}
+		return &gq.SchemaDesc{Query: "Q", Types: []gq.TypeDesc{
+			{Kind: "ENUM", Name: "HE", Values: vals},
+			{Kind: "INPUT_OBJECT", Name: "HIn", InputFields: []gq.ArgDesc{{Name: "a", Type: "Int"}, {Name: "d", Type: "Int", HasDef: true, Default: dflt}, {Name: "e", Type: "HE"}}},
+			{Kind: "OBJECT", Name: "Q", Fields: []gq.FieldDesc{{Name: "cf", Type: "String", Args: []gq.ArgDesc{
+				{Name: "c", Type: "HE"}, {Name: "l", Type: "[HE]"}, {Name: "a", Type: "HIn"}}}}}}}
+	}
+	c1, c2 := execCase{Kind: "exec", Schema: mk(false), NumMode: "int"}, execCase{Kind: "exec", Schema: mk(true), NumMode: "int"}
+	b1, rec1 := h.buildRec(c1)
+	b2, rec2 := h.buildRec(c2)
+	if b1 == nil || b2 == nil {
+		return
+	}
+	reqs := []struct {
+		query  string
+		inputs map[string]interface{}
+	}{
+		{"query($v: HE) { cf(c: $v) }", map[string]interface{}{"v": "BLUE"}},
+		{"query($v: HE) { cf(c: $v) }", map[string]interface{}{"v": "RED"}},
+		{"{ cf(c: RED) }", map[string]interface{}{}},
+		{"query($v: [HE]) { cf(l: $v) }", map[string]interface{}{"v": []interface{}{"GREEN", "RED"}}},
+		{"query($v: [HE]) { cf(l: $v) }", map[string]interface{}{"v": "BLUE"}},
+		{"{ cf(l: [GREEN, RED]) }", map[string]interface{}{}},
+		{"query($v: HIn) { cf(a: $v) }", map[string]interface{}{"v": map[string]interface{}{"a": 1}}},
+		{"{ cf(a: {a: 1}) }", map[string]interface{}{}},
+		{"query($v: HIn) { cf(a: $v) }", map[string]interface{}{"v": map[string]interface{}{"a": 1, "e": "BLUE"}}},
+		{"query($v: HIn) { cf(a: $v) }", map[string]interface{}{"v": map[string]interface{}{"e": "GREEN", "d": 3}}},
+		{"query($x: Int, $e: HE) { cf(a: {a: $x, e: $e}) }", map[string]interface{}{"x": 4, "e": "GREEN"}},
+		{"query($x: Int, $e: HE) { cf(a: {a: $x, e: $e}) }", map[string]interface{}{"x": 4, "e": "BLUE"}},
+		{"query($v: HE = GREEN) { cf(c: $v) }", map[string]interface{}{}},
+		{"query($v: HIn = {a: 2}) { cf(a: $v) }", map[string]interface{}{}},
+	}
+	for _, rq := range reqs {
+		doc, err := parser.Parse(parser.ParseParams{Source: rq.query})
+		if err != nil {
+			run.CheckError("history query does not parse: " + rq.query)
+			return
+		}
+		if !graphql.ValidateDocument(&b1.Schema, doc, nil).IsValid {
+			run.CheckError("history query is not valid: " + rq.query)
+			return
+		}
+		var plan *graphql.Plan
+		if p := guard(func() { plan, err = graphql.PlanQuery(&b1.Schema, doc, "") }); p != nil || err != nil || plan == nil {
+			run.CheckError("history: PlanQuery failed on " + rq.query)
+			return
+		}
+		c := c1
+		c.Query, c.Inputs = rq.query, rq.inputs
+		m, raw, ok := h.askExec(c, doc, rq.inputs)
+		if !ok {
+			return
+		}
+		for _, ps := range []struct {
+			label  string
+			schema graphql.Schema
+		}{{"the plan's own schema", b1.Schema}, {"a rebuilt schema of the same shape (other enum internals, extra value, other default)", b2.Schema}, {"no schema", graphql.Schema{}}} {
+			for round := 0; round < 2; round++ {
+				*rec1, *rec2 = recorded{}, recorded{}
+				var res *graphql.Result
+				pan := guard(func() {
+					res = graphql.ExecutePlan(plan, graphql.ExecuteParams{Schema: ps.schema, AST: doc, Args: goInputs(c.Schema, doc, rq.inputs, "int")})
+				})
+				real := map[string]interface{}{"executeParamsSchema": ps.label, "round": round, "calls": rec1.calls, "invocations": rec1.all,
+					"variableValues": rec1.vars, "callsOfTheOtherSchemasResolver": rec2.calls, "panic": pan}
+				if res != nil {
+					real["dataIsNil"], real["errors"] = res.Data == nil, len(res.Errors)
+				}
+				run.Tag("history:held-plan:ExecuteParams.Schema=" + strings.SplitN(ps.label, " (", 2)[0])
+				run.Case("hist2|"+rq.query+"|"+hx.Canon(rq.inputs)+"|"+ps.label, true, nil)
+				fail := func(note string) {
+					run.Violation("held plan executed with ExecuteParams.Schema = "+ps.label+": "+note+" (the plan's schema must govern variable coercion, literals and resolvers alike)",
+						map[string]interface{}{"case": c, "real": real, "model": raw, "note": "history case: not replayable from the case alone"}, false)
+				}
+				if pan != nil || res == nil {
+					fail("ExecutePlan panicked")
+					return
+				}
+				if rec2.calls != 0 {
+					fail("a resolver of the other schema ran")
+					return
+				}
+				if !h.judge(c, rec1, res, m, fail) {
+					return
+				}
+			}
+		}
+	}
+}
+
 // fixed probes: the D-05a / D-05b / D-05c shapes (all repaired in /repo: they must pass)
 func (h *harness) probes(s *gq.SchemaDesc) {
 	tags := map[string]bool{"probe": true}
@@ -2374,6 +2668,8 @@ func main() {
 				h.nonFiniteSweep(s)
 				h.bigFloatSweep(s)
 				h.unknownNullSweep(s)
+				h.historyAddField()
+				h.historyHeldPlan()
 			}
 		}
 		r := hx.Fork(run.Seed, i)
